@@ -94,6 +94,11 @@ Proof. vm_compute. split; reflexivity. Qed.
 
 Print Assumptions constructed_field_is_argument_or_default.
 Print Assumptions construction_is_default_then_assignment.
+(* unions get another template (object.__setattr__ with the member names as string constants): it stores the same *)
+Theorem union_construction_assigns_arguments_or_defaults : forall V (fields : list (string * V)) args,
+  run_init V (generate_union_init V fields) args = Ok (init_spec V fields args).
+Proof. exact union_init_assigns_arguments_or_defaults. Qed.
+Print Assumptions union_construction_assigns_arguments_or_defaults.
 Print Assumptions equal_exactly_when_same_type_and_all_fields_equal.
 Print Assumptions equal_instances_hash_equally.
 Print Assumptions falsy_exactly_when_all_fields_are.
